@@ -369,4 +369,150 @@ theorem SWalk.erase_loops {s t : St} {p : List Nat} (h : SWalk E Z s p t) :
 
 end Loops
 
+/-! ### walks (lists of nodes) and runs -/
+
+/-- no arrow is present in both directions (in particular no self-loop) — all a DAG is needed for here -/
+def NoTwoCycle (E : List Edge) : Prop := ∀ a b, (a, b) ∈ E → (b, a) ∉ E
+
+theorem Acyclic.noTwoCycle {E : List Edge} (h : Acyclic E) : NoTwoCycle E :=
+  fun a b h1 h2 => h a (TransGen.head (b := b) h1 (.single h2))
+
+section Bridge
+variable {E : List Edge} {Z : List Nat}
+
+theorem not_blockedAt_collider {a b c : Nat} (h : ¬ BlockedAt E Z a b c) (h1 : (a, b) ∈ E) (h2 : (c, b) ∈ E) :
+    AnZ E Z b := by
+  rw [anZ_iff]
+  by_contra hn
+  simp only [not_or, not_exists, not_and] at hn
+  exact h (.inl ⟨h1, h2, hn.1, hn.2⟩)
+
+theorem not_blockedAt_noncollider {a b c : Nat} (h : ¬ BlockedAt E Z a b c) (h1 : ¬ ((a, b) ∈ E ∧ (c, b) ∈ E)) :
+    b ∉ Z := fun hb => h (.inr ⟨h1, hb⟩)
+
+/-- an unblocked walk `a, b, …` read as a run starting at its second node -/
+theorem run_of_walk_aux (h2c : NoTwoCycle E) {y : Nat} (r : List Nat) : ∀ a b : Nat, IsWalk E (a :: b :: r) →
+    ¬ Blocked E Z (a :: b :: r) → (a :: b :: r).getLast? = some y →
+    ∃ d', ReflTransGen (Step E Z) (b, decide ((a, b) ∈ E)) (y, d') := by
+  induction r with
+  | nil =>
+    intro a b _ _ hl
+    have : b = y := by simpa using hl
+    subst this
+    exact ⟨_, .refl⟩
+  | cons c r ih =>
+    intro a b hw hb hl
+    obtain ⟨hab, hbc, hw'⟩ : Adj E a b ∧ Adj E b c ∧ IsWalk E (c :: r) := hw
+    have hb1 : ¬ BlockedAt E Z a b c := fun h => hb (.inl h)
+    have hb2 : ¬ Blocked E Z (b :: c :: r) := fun h => hb (.inr h)
+    rw [List.getLast?_cons_cons] at hl
+    obtain ⟨d', hrun⟩ := ih b c ⟨hbc, hw'⟩ hb2 hl
+    refine ⟨d', .head ?_ hrun⟩
+    by_cases hbc' : (b, c) ∈ E
+    · have hnc : ¬ ((a, b) ∈ E ∧ (c, b) ∈ E) := fun h => h2c _ _ hbc' h.2
+      exact .inl ⟨hbc', by simp [hbc'], not_blockedAt_noncollider hb1 hnc⟩
+    · have hcb : (c, b) ∈ E := hbc.resolve_left hbc'
+      refine .inr ⟨hcb, by simp [hbc'], fun h => ?_, fun h => ?_⟩
+      · have hab' : (a, b) ∈ E := by simpa using h
+        exact not_blockedAt_collider hb1 hab' hcb
+      · have hab' : (a, b) ∉ E := by simpa using h
+        exact not_blockedAt_noncollider hb1 (fun h => hab' h.1)
+
+/-- an unblocked walk from `x ∉ Z` to `y` is a run -/
+theorem run_of_walk (h2c : NoTwoCycle E) {x y : Nat} (hx : x ∉ Z) {p : List Nat} (hw : IsWalk E p)
+    (hft : FromTo p x y) (hb : ¬ Blocked E Z p) : ∃ d, ReflTransGen (Step E Z) (x, false) (y, d) := by
+  obtain ⟨hh, hl⟩ := hft
+  match p, hh with
+  | [a], hh =>
+    have h1 : a = x := by simpa using hh
+    have h2 : a = y := by simpa using hl
+    subst h1; subst h2
+    exact ⟨false, .refl⟩
+  | a :: b :: r, hh =>
+    have h1 : a = x := by simpa using hh
+    subst h1
+    obtain ⟨d', hrun⟩ := run_of_walk_aux h2c r a b hw hb hl
+    refine ⟨d', .head ?_ hrun⟩
+    by_cases hab : (a, b) ∈ E
+    · exact .inl ⟨hab, by simp [hab], hx⟩
+    · exact .inr ⟨hw.1.resolve_left hab, by simp [hab], fun h => Bool.noConfusion h, fun _ => hx⟩
+
+/-- the node list of a run is an unblocked walk, and stays unblocked when a node is put in front from which the
+    run's first node is entered in the recorded way -/
+theorem SWalk.list_facts (h2c : NoTwoCycle E) {s t : St} {p : List Nat} (h : SWalk E Z s p t) :
+    IsWalk E p ∧ ¬ Blocked E Z p ∧ ∀ a, decide ((a, s.1) ∈ E) = s.2 → ¬ Blocked E Z (a :: p) := by
+  induction h with
+  | nil s => exact ⟨trivial, fun h => h, fun _ _ h => h⟩
+  | @cons s s' t p hst hw ih =>
+    obtain ⟨r, rfl⟩ := hw.head_eq
+    obtain ⟨ih1, _, ih3⟩ := ih
+    have hadj : Adj E s.1 s'.1 := by
+      rcases hst with ⟨he, _, _⟩ | ⟨he, _, _, _⟩
+      · exact .inl he
+      · exact .inr he
+    have hdir : decide ((s.1, s'.1) ∈ E) = s'.2 := by
+      rcases hst with ⟨he, h, _⟩ | ⟨he, h, _, _⟩
+      · rw [h]; simpa using he
+      · rw [h]; simpa using h2c _ _ he
+    have hnb : ¬ Blocked E Z (s.1 :: s'.1 :: r) := ih3 s.1 hdir
+    refine ⟨⟨hadj, ih1⟩, hnb, fun a ha => ?_⟩
+    rintro (hb | hb)
+    · rcases hst with ⟨he, _, hsZ⟩ | ⟨he, _, h1, h2⟩
+      · rcases hb with ⟨_, hc, _, _⟩ | ⟨_, hz⟩
+        · exact h2c _ _ he hc
+        · exact hsZ hz
+      · rcases hb with ⟨hc1, _, hz, hdz⟩ | ⟨hnc, hz⟩
+        · have hs2 : s.2 = true := by rw [← ha]; simpa using hc1
+          rcases anZ_iff.mp (h1 hs2) with h | ⟨d, hd, hdZ⟩
+          · exact hz h
+          · exact hdz d hd hdZ
+        · have hs2 : s.2 = false := by
+            rw [← ha]
+            simp only [decide_eq_false_iff_not]
+            exact fun h => hnc ⟨h, he⟩
+          exact h2 hs2 hz
+    · exact hnb hb
+
+end Bridge
+
+/-! ### the theorem: moral-graph criterion ⇔ path blocking (walks, and simple paths) -/
+
+section Main
+variable {E : List Edge} {Z : List Nat}
+
+/-- **Lauritzen–Dawid–Larsen–Leimer.**  In a DAG, for `x`, `y` outside `Z`: `x` and `y` are separated by `Z` in the
+    moral graph of the ancestral set iff every walk between them is blocked by `Z`. -/
+theorem dsepMoral_iff_walks (hac : Acyclic E) {x y : Nat} (hx : x ∉ Z) (hy : y ∉ Z) :
+    DSepMoral E x y Z ↔ DSepWalks E x y Z := by
+  constructor
+  · intro hm p hw hft
+    by_contra hb
+    exact ((exists_run_iff_moral hy).mp (run_of_walk hac.noTwoCycle hx hw hft hb)) hm
+  · intro hd
+    by_contra hm
+    obtain ⟨d, hrun⟩ := (exists_run_iff_moral hy).mpr hm
+    obtain ⟨p, hp⟩ := SWalk.of_rtg hrun
+    exact (hp.list_facts hac.noTwoCycle).2.1 (hd p (hp.list_facts hac.noTwoCycle).1 hp.fromTo)
+
+/-- … iff every *path* (no repeated node) between them is blocked by `Z`: an unblocked walk can be shortened to
+    an unblocked path -/
+theorem dsepMoral_iff_paths (hac : Acyclic E) {x y : Nat} (hx : x ∉ Z) (hy : y ∉ Z) :
+    DSepMoral E x y Z ↔ DSepPaths E x y Z := by
+  constructor
+  · intro hm p hw hft _
+    exact (dsepMoral_iff_walks hac hx hy).mp hm p hw hft
+  · intro hd
+    by_contra hm
+    obtain ⟨d, hrun⟩ := (exists_run_iff_moral hy).mpr hm
+    obtain ⟨p, hp⟩ := SWalk.of_rtg hrun
+    obtain ⟨p', t', ht', hp', hnd⟩ := hp.erase_loops
+    have hft : FromTo p' x y := by have := hp'.fromTo; rwa [ht'] at this
+    exact (hp'.list_facts hac.noTwoCycle).2.1 (hd p' (hp'.list_facts hac.noTwoCycle).1 hft hnd)
+
+theorem dsepWalks_iff_paths (hac : Acyclic E) {x y : Nat} (hx : x ∉ Z) (hy : y ∉ Z) :
+    DSepWalks E x y Z ↔ DSepPaths E x y Z :=
+  (dsepMoral_iff_walks hac hx hy).symm.trans (dsepMoral_iff_paths hac hx hy)
+
+end Main
+
 end ZV.Dag
